@@ -123,9 +123,11 @@ bool splinetable<Alloc>::write_key(const char* key, const T& value){
 		return(false);
 	std::string valuedata=ss.str();
 	size_t valuelen = valuedata.size() + 1;
+	//every quote in the value takes two characters on the header card
+	size_t cardlen = valuedata.size() + std::count(valuedata.begin(),valuedata.end(),'\'');
 	//For normal (short) keys, we get up to 68 bytes of storage, but for longer keywords
 	//the 'HIERARCH Keyword Convention' kicks in and limits us further
-	if(valuelen-1>maxdatalen){
+	if(cardlen>maxdatalen){
 		throw std::runtime_error("Value is too long to be stored as a FITS keyword ('"
 								 +valuedata+"' has length "+std::to_string(valuelen-1)
 								 +", but a maximum of "+std::to_string(maxdatalen)+
